@@ -332,13 +332,14 @@ pub fn write_replay(dir: &Path, property: &str, seed: u64, v: &Violation, scn: V
 }
 
 /// `crux-sim replay <path>`: exit 1 and print the signature if the scenario fails
-pub fn replay<C: Check>(check: &'static C, path: &str) -> i32 {
+pub fn replay<C: Check>(check: &'static C, path: &str, known: &[String]) -> i32 {
     let data = std::fs::read(path).unwrap_or_else(|e| harness_error(&format!("read {path}: {e}")));
     let rf: ReplayFile =
         serde_json::from_slice(&data).unwrap_or_else(|e| harness_error(&format!("parse {path}: {e}")));
     let scn: C::Scn = serde_json::from_value(rf.scenario)
         .unwrap_or_else(|e| harness_error(&format!("scenario in {path}: {e}")));
     let mut cov = Cov::default();
+    cov.known = known.iter().cloned().collect();
     match execute_isolated(check, &scn, &mut cov) {
         Ok(_) => {
             println!("REPLAY result=clean property={} expected_sig={}", rf.property, rf.sig);
@@ -360,7 +361,7 @@ pub fn replay<C: Check>(check: &'static C, path: &str) -> i32 {
 // ------------------------------------------------------------------------------------------------
 // minimisation
 
-pub fn minimise<C: Check>(check: &'static C, scn: C::Scn, v: &Violation, budget: usize) -> (C::Scn, usize) {
+pub fn minimise<C: Check>(check: &'static C, scn: C::Scn, v: &Violation, budget: usize, known: &BTreeSet<String>) -> (C::Scn, usize) {
     let mut best = scn;
     let mut used = 0usize;
     'outer: loop {
@@ -371,6 +372,7 @@ pub fn minimise<C: Check>(check: &'static C, scn: C::Scn, v: &Violation, budget:
             }
             used += 1;
             let mut cov = Cov::default();
+            cov.known = known.clone();
             if let Err(v2) = execute_isolated(check, &cand, &mut cov) {
                 if v2.sig == v.sig {
                     best = cand;
@@ -468,9 +470,10 @@ pub fn child<C: Check>(check: &'static C, args: &ChildArgs) -> i32 {
                     continue;
                 }
                 seen_sigs.insert(v.sig.clone());
-                let (min, used) = minimise(check, scn, &v, 3000);
+                let (min, used) = minimise(check, scn, &v, 3000, &cov.known);
                 // message of the minimised scenario
                 let mut c2 = Cov::default();
+                c2.known = cov.known.clone();
                 let v_min = match execute_isolated(check, &min, &mut c2) {
                     Err(v2) if v2.sig == v.sig => v2,
                     _ => v.clone(),
@@ -551,9 +554,12 @@ struct ReplayOutcome {
     text: String,
 }
 
-fn run_replay_process(path: &str, timeout: Duration) -> ReplayOutcome {
+fn run_replay_process(path: &str, timeout: Duration, known: &[String]) -> ReplayOutcome {
     let mut cmd = std::process::Command::new(self_exe());
     cmd.arg("replay").arg(path);
+    for k in known {
+        cmd.arg("--known").arg(k);
+    }
     cmd.stdout(std::process::Stdio::piped());
     cmd.stderr(std::process::Stdio::piped());
     let mut ch = cmd.spawn().expect("spawn replay");
@@ -630,7 +636,7 @@ pub fn parent<C: Check>(check: &'static C, tier: Tier) -> i32 {
         if !path.exists() {
             harness_error(&format!("known finding replay missing: {}", path.display()));
         }
-        let o = run_replay_process(&path.to_string_lossy(), check.run_timeout() + Duration::from_secs(30));
+        let o = run_replay_process(&path.to_string_lossy(), check.run_timeout() + Duration::from_secs(30), &[]);
         let still = o.violated && o.sig.as_deref() == Some(k.signature.as_str());
         if still {
             println!("KNOWN-FINDING: property={id} {} [sig {}]", k.what, k.signature);
@@ -772,7 +778,8 @@ pub fn parent<C: Check>(check: &'static C, tier: Tier) -> i32 {
         if my_known.iter().any(|k| k.signature == v.sig) {
             continue;
         }
-        let o = run_replay_process(&v.replay, check.run_timeout() + Duration::from_secs(30));
+        let known_sigs: Vec<String> = my_known.iter().map(|k| k.signature.clone()).collect();
+        let o = run_replay_process(&v.replay, check.run_timeout() + Duration::from_secs(30), &known_sigs);
         let same = (o.violated && o.sig.as_deref() == Some(v.sig.as_str()))
             || (o.hung && v.sig.ends_with(":hang"))
             || (o.crashed && v.sig.contains(":crash:"));
